@@ -73,10 +73,12 @@ def hexVal (l : List Char) : Nat := l.foldl (fun acc c => acc * 16 + hexDigitVal
 
 /-- `usize::from_str_radix(s, 16).ok()`: optional leading `+`, then ≥ 1 hex digit (either case),
     value < 2^64 (checked multiplication/addition never lets a larger value through). -/
+def stripPlus : List Char → List Char
+  | '+' :: rest => rest
+  | l => l
+
 def parseHexUsize (l : List Char) : Option Nat :=
-  let ds := match l with
-    | '+' :: rest => rest
-    | _ => l
+  let ds := stripPlus l
   if ds.isEmpty then none
   else if ds.all isHex then
     let v := hexVal ds
